@@ -405,9 +405,14 @@ func SpecMatch(pattern string, hasWild bool, s string) bool {
 //@   assigns elems(c.conns)
 //@   safety[C15]
 
+// Subscribe: a subscriber is added to a cache entry only after the entry's use was taken and
+// the MQ subscription to the resource's events made; otherwise it is told about the error.
 //@ func (*Cache).Subscribe
 //@   requires c != nil && sub != nil
 //@   assumes predCacheOK(c)
+//@   assert[C09] eventSub.addSubscriber#1: err == nil && eventSub != nil && eventSub.mqSub != nil
+//@   assert[C09] sub.Loaded#1: err != nil && arg0 == nil
+//@   safety[C15]
 //@   assigns pkgstate(rescache), cachecontainers()
 
 // Access: exactly one verdict per request; a transport error or a missing result is a denial
